@@ -52,7 +52,7 @@ def generate(rng, tier):
             na, nb = rng.randint(1, 3), rng.randint(1, 3)
             a = [gen_vec(rng, m) for _ in range(na)]
             b = [gen_vec(rng, m) for _ in range(nb)]
-            mk = rng.choice(['none', 'common', 'common', 'common', 'between', 'within', 'bootstrap'])
+            mk = rng.choice(['none', 'common', 'common', 'common', 'between', 'within', 'bootstrap', 'mixed'])
             nmiss = rng.randint(1, max(1, m - 4))
             if mk == 'none':
                 ma = [[True] * m] * na
@@ -67,6 +67,20 @@ def generate(rng, tier):
                     if m2 != mm:
                         break
                 ma, mb = [mm] * na, [m2] * nb
+            elif mk == 'mixed':
+                # both stacks are heterogeneous in the same way (as a stack built from partial RDMs compared with itself or
+                # with a reordering of itself): equal counts per RDM, equal set of entries valid in all RDMs of a stack,
+                # different positions between paired RDMs (seeded change C13-m6)
+                mm = rand_mask(rng, m, nmiss)
+                while True:
+                    m2 = rand_mask(rng, m, nmiss)
+                    if m2 != mm:
+                        break
+                na, nb = max(na, 2), max(nb, 2)
+                a = [gen_vec(rng, m) for _ in range(na)]
+                b = [gen_vec(rng, m) for _ in range(nb)]
+                ma = [mm, m2] + [rng.choice([mm, m2]) for _ in range(na - 2)]
+                mb = ([mm, m2] if rng.random() < 0.5 else [m2, mm]) + [rng.choice([mm, m2]) for _ in range(nb - 2)]
             elif mk == 'within':
                 mm = rand_mask(rng, m, nmiss)
                 while True:
@@ -298,7 +312,8 @@ def oracle(c, o):
 
 def support(rng, tier):
     """pooled RDMs and regression fits with commonly missing entries (pattern bootstrap) against the entry-deleted computation,
-    for the whitened methods with the matching rows and columns of V deleted"""
+    for the whitened methods with the matching rows and columns of V deleted; with a given sigma_k the implementation solves with
+    scipy's conjugate gradient (relative residual 1e-5): those variants are compared under an absolute tolerance of 1e-4 / 1e-5"""
     import warnings
     warnings.simplefilter('ignore')
     from rsatoolbox.rdm import RDMs
@@ -337,7 +352,7 @@ def support(rng, tier):
                 want[ok] = p
                 got = pool_rdm(data, method=method, sigma_k=sig).dissimilarities[0]
                 res.append((f'pool_{method}_{"sigma" if sig is not None else "none"}_{rep}',
-                            bool(np.allclose(got, want, rtol=1e-6, atol=1e-9, equal_nan=True)), dict(method=method, sel=sel)))
+                            bool(np.allclose(got, want, rtol=1e-6, atol=1e-9 if sig is None else 1e-5, equal_nan=True)), dict(method=method, sel=sel)))
                 # regression fit on the same data
                 mdl = ModelWeighted('w', basis)
                 th = fit_regress(mdl, data, method=method, pattern_idx=np.array(sel), pattern_descriptor='index', sigma_k=sig)
@@ -349,5 +364,5 @@ def support(rng, tier):
                 t = np.linalg.solve(B @ Wi @ B.T, B @ Wi @ y)
                 t = t / np.sqrt(np.sum(t ** 2))
                 res.append((f'regress_{method}_{"sigma" if sig is not None else "none"}_{rep}',
-                            bool(np.allclose(th, t, rtol=1e-5, atol=1e-7)), dict(method=method, sel=sel)))
+                            bool(np.allclose(th, t, rtol=1e-5, atol=1e-7 if sig is None else 1e-4)), dict(method=method, sel=sel)))
     return res
